@@ -1155,32 +1155,14 @@ package rapid
 //@   modifies heap, drawn, lockmode, cancelled, cmpAt, lessAt, cleanupSkipped, propFalsified, discards
 
 // ---------------------------------------------------------------------------------------------
-// Reachability (C18, C12): witnessed scenarios. For every max and every v <= max outside the known hole there
-// is a geometric draw n (= max(1, Len64(v)); = Len64(max) when the lengths agree) and a word (= v) for which
-// genUintNBiased returns v. The hole (see known_findings.json): spans whose bit length is 56 or 60..64 cannot
-// produce values of full bit length other than max itself - proved unreachable by the @hole scenario.
+// Reachability (C18, C12): witnessed scenarios. For every max and every v <= max there is a geometric draw n
+// (= max(1, Len64(v))) and a word (= v) for which genUintNBiased returns v. On the pinned tree this failed for spans
+// whose bit length is 56 or 60..64: values of full bit length other than max itself were unreachable (finding F8,
+// repaired by fix 9558712; until then a second scenario proved the hole unreachable for every stream).
 
-//@ define holeBand(b) = b == 56 || b == 60 || b == 61 || b == 62 || b == 63 || b == 64
-//@ define inHole(v, max) = len64(v) == len64(max) && v != max && holeBand(len64(max))
 //@ define witnessN(v) = ite(len64(v) < 1, 1, len64(v))
 
 //@ func genUintNBiased@reach
-//@   given v (_ BitVec 64)
-//@   requires [C12,C18] v <= max && !inHole(v, max)
-//@   ensures [C12,C18] result0 == v
-//@   panics invalidData: true
-//@   modifies drawn, lastWord, discards
-//@   at genGeom#0 witness [C12,C18] uint64(witnessN(v)) - 1
-//@   at s.drawBits#0 witness [C12,C18] v
-
-//@ func genUintNBiased@hole
-//@   given v (_ BitVec 64)
-//@   requires [C18] v <= max && inHole(v, max)
-//@   ensures [C18] result0 != v
-//@   panics invalidData: true
-//@   modifies drawn, lastWord, discards
-
-//@ func genUintNBiased@reachall
 //@   given v (_ BitVec 64)
 //@   requires [C12,C18] v <= max
 //@   ensures [C12,C18] result0 == v
@@ -1451,7 +1433,7 @@ package rapid
 // exponent, integer part, "how many low bits to keep" and fractional part - that makes it return exactly the parts of
 // tb. Each choice must be admissible for the callee that makes it (inside the range it was called with): this is what
 // pins the bound tables of the two switch statements from the reachability side (C03 pins them from the safety side).
-// That each callee can reach every admissible result is genUintNBiased@reachall etc. (no hole here: spans <= 2^52).
+// That each callee can reach every admissible result is genUintNBiased@reach etc.
 //@ define partE(tb) = int32(tb >> 52) - 1023
 //@ define partS(tb) = tb & 0xfffffffffffff
 //@ define partSI(tb) = partS(tb) >> fracbits(partE(tb), uint64(52))
@@ -1490,10 +1472,10 @@ package rapid
 
 // ---------------------------------------------------------------------------------------------
 // Reachability carried up from genUintNBiased to the range generators (C18): every value of an integer range can be
-// produced, whatever the sign split and the offset arithmetic do (values inside the known hole F8 excepted).
+// produced, whatever the sign split and the offset arithmetic do.
 //@ func genUintN@reach
 //@   given v (_ BitVec 64)
-//@   requires [C18] bias && v <= max && !inHole(v, max)
+//@   requires [C18] bias && v <= max
 //@   ensures [C18] result0 == v
 //@   panics invalidData: true
 //@   modifies drawn, lastWord, discards
@@ -1501,7 +1483,7 @@ package rapid
 
 //@ func genUintRange@reach
 //@   given v (_ BitVec 64)
-//@   requires [C18] bias && min <= v && v <= max && !inHole(v - min, max - min)
+//@   requires [C18] bias && min <= v && v <= max
 //@   ensures [C18] result0 == v
 //@   panics any: true
 //@   modifies drawn, lastWord, discards
@@ -1510,7 +1492,6 @@ package rapid
 //@ func genIntRange@reach
 //@   given v (_ BitVec 64)
 //@   requires [C18] bias && min <= int64(v) && int64(v) <= max
-//   (composition with genUintRange@reach / genUintN@reach / genUintNBiased@reachall inherits the hole of F8)
 //@   ensures [C18] result0 == int64(v)
 //@   panics any: true
 //@   modifies drawn, lastWord, discards
